@@ -52,6 +52,13 @@ func opHist(p []string) string {
 		ufeed: map[int]*feedReader{}, c: map[int]refmt.Cloner{}}
 	var outs []string
 	oracle := "ok"
+	// what earlier calls on the long-lived instances handed back: it must still read the same after every later call
+	type kept struct {
+		n    int
+		v    reflect.Value
+		dump string
+	}
+	var keep []kept
 	for n, op := range strings.Split(p[1], ";") {
 		f := strings.Split(op, "|")
 		a := atlasByID(f[1])
@@ -94,6 +101,9 @@ func opHist(p []string) string {
 			dst := reflect.New(t)
 			e, pn := safely(func() error { return h.u[a.id].Unmarshal(dst.Interface()) })
 			reused = resStr(dumpValue(dst.Elem()), e, pn)
+			if e == nil && !pn {
+				keep = append(keep, kept{n, dst.Elem(), dumpValue(dst.Elem())})
+			}
 			// re-align the stream: whatever a failed call left unread is dropped, so the next call starts on its own item
 			h.ufeed[a.id].buf.Reset()
 			dst2 := reflect.New(t)
@@ -131,11 +141,19 @@ func opHist(p []string) string {
 			dst := reflect.New(t)
 			e, pn := safely(func() error { return h.c[a.id].Clone(src.Interface(), dst.Interface()) })
 			reused = resStr(dumpValue(dst.Elem()), e, pn)
+			if e == nil && !pn {
+				keep = append(keep, kept{n, dst.Elem(), dumpValue(dst.Elem())})
+			}
 			dst2 := reflect.New(t)
 			e2, pn2 := safely(func() error { return refmt.CloneAtlased(src.Interface(), dst2.Interface(), a.atl) })
 			fresh = resStr(dumpValue(dst2.Elem()), e2, pn2)
 		}
 		outs = append(outs, reused)
+		for _, k := range keep {
+			if oracle == "ok" && k.n < n && dumpValue(k.v) != k.dump {
+				oracle = fmt.Sprintf("viol:value-returned-by-call-%d-changed-during-call-%d:%s", k.n, n, k.dump)
+			}
+		}
 		if reused != fresh && oracle == "ok" {
 			if reused == "panic" {
 				oracle = fmt.Sprintf("viol:panic-at-call-%d", n)
@@ -174,6 +192,7 @@ func resStr(ok string, err error, panicked bool) string {
 		return "panic"
 	}
 	if err != nil {
+		_ = err.Error() // callers format their errors (which must not touch anything shared either)
 		return "err"
 	}
 	return ok
